@@ -108,8 +108,12 @@ pub fn generate(r: &mut Rng, _tier: Tier, _group: u64) -> serde_json::Value {
         steps.push(Step::Observe);
         for _ in 0..(1 + r.below(3)) {
             steps.push(Step::W(Op::Checkout { branch: 0 }));
-            steps.push(cm(r));
             if r.chance(1, 2) {
+                steps.push(cm(r));
+            }
+            steps.push(Step::Observe);
+            if r.chance(2, 3) {
+                // a step that adds nothing but merge commits when the other line already has ours
                 steps.push(Step::W(Op::Merge { others: vec![1], actor: 0, dt: 5 }));
                 steps.push(Step::Observe);
             }
